@@ -514,6 +514,11 @@ func rulePooledBuffersDoNotEscape(c *eng.Ctx) {
 					if x.Call.IsInvoke() || len(x.Call.Args) == 0 {
 						return
 					}
+					// append(x[:0], …) answers with x's storage whenever the result fits
+					if isBuiltinCall(x, "append") {
+						walk(x.Call.Args[0], d+1)
+						return
+					}
 					switch x.Type().Underlying().(type) {
 					case *types.Slice, *types.Pointer:
 						if g := x.Call.StaticCallee(); g != nil && g.Signature.Recv() != nil {
@@ -524,6 +529,9 @@ func rulePooledBuffersDoNotEscape(c *eng.Ctx) {
 					if x.Op == token.MUL {
 						if fa, ok := x.X.(*ssa.FieldAddr); ok {
 							walk(fa.X, d+1)
+						} else {
+							// *bp where bp (a *[]byte) is what goes back into the pool
+							walk(x.X, d+1)
 						}
 					}
 				case *ssa.MakeInterface:
